@@ -134,6 +134,26 @@ func c19Judge(k c19Case) *vlib.Failure {
 		}
 		seen[g] = true
 	}
+	// (3) an iter.Seq is a value that may be ranged over again: a pass that was cut short must not affect
+	// a later full pass over the same value
+	seq := cfgerrors.All(err)
+	cnt := 0
+	for range seq {
+		cnt++
+		if k.BreakAt >= 0 && cnt >= k.BreakAt {
+			break
+		}
+	}
+	var again []int
+	for e := range seq {
+		again = append(again, c19ID(e))
+	}
+	sort.Ints(again)
+	ws := append([]int(nil), want...)
+	sort.Ints(ws)
+	if fmt.Sprint(again) != fmt.Sprint(ws) {
+		return vlib.Failf("second pass over the same iterator value (after a first pass stopped at %d) yielded %v, want the leaves %v", k.BreakAt, again, ws)
+	}
 	// (2) the same through a range statement: a missed early exit makes the Go runtime panic
 	n := 0
 	var got2 []int
